@@ -133,11 +133,27 @@ def r1_target_escaping(ctx) -> None:
         r.violation("C05.R1", f.qual, "escaped_chars lacks the escape character",
                     "the escape character itself is not escaped: a value ending in the escape character (x\\ with escape_char='\\' and str_quote='\"') renders as \"x\\\" — the backslash escapes the closing quote in the target language and the literal does not end; a backslash before a wildcard renders as \\* (an escaped, literal star)", loc)
     cv = prog.func(TQ + ".convert_value_str")
-    calls = [c for c in walk_no_nested(cv.node) if isinstance(c, ast.Call) and call_name(c).endswith(".convert")]
-    if calls and [unparse(a) for a in calls[0].args] == ["self.escape_char", "self.wildcard_multi", "self.wildcard_single", "self.str_quote + self.add_escaped", "self.filter_chars"]:
-        r.ok("C05.R1", cv.qual, "convert(escape_char, wildcard_multi, wildcard_single, str_quote + add_escaped, filter_chars)", cv.loc)
+    # convert_value_str interpreted (sa.tabulate, Proxy) on a string stand-in with a recording convert()
+    from ..tabulate import Proxy as _Pv, call_method as _cmv, Raised as _Rv
+    cvp = [p_ for p_ in prog.func(T + ".SigmaString.convert").params() if p_ != "self"]
+    got_v: list = []
+    class _SV:
+        def convert(self, *a_, **k_):
+            d_ = dict(zip(cvp, a_)); d_.update(k_); got_v.append(d_)
+            return "CONVERTED"
+    cfg_v = {"escape_char": "E", "wildcard_multi": "M", "wildcard_single": "S", "str_quote": "Q", "add_escaped": "xy", "filter_chars": "fg", "str_quote_pattern": None, "str_quote_pattern_negation": True}
+    outs_v = {}
+    for quoting in (True, False):
+        me_v = _Pv(prog, TQ, {}, dict(cfg_v, decide_string_quoting=lambda s_, _q=quoting: _q, quote_string=lambda t_: f"Q{t_}Q"), interp_kwargs={"max_steps": 3000})
+        try:
+            outs_v[quoting] = _cmv(prog, TQ, "convert_value_str", me_v, {}, _SV(), object(), interp_kwargs={"max_steps": 3000})
+        except _Rv as ex:
+            outs_v[quoting] = f"raises {ex}"
+    want_v = {"escape_char": "E", "wildcard_multi": "M", "wildcard_single": "S", "add_escaped": "Qxy", "filter_chars": "fg"}
+    if got_v and all({k_: d_.get(k_) for k_ in want_v} == want_v for d_ in got_v) and outs_v == {True: "QCONVERTEDQ", False: "CONVERTED"}:
+        r.ok("C05.R1", cv.qual, "convert(escape_char, wildcard_multi, wildcard_single, str_quote + add_escaped, filter_chars); quoted iff decide_string_quoting (interpreted)", cv.loc)
     else:
-        r.violation("C05.R1", cv.qual, short(calls[0], 160) if calls else "convert(...)", "the quote character must be among the escaped characters and the backend's filter characters must be passed", cv.loc)
+        r.violation("C05.R1", cv.qual, f"convert(...) receives { {k_: (got_v[0] if got_v else {}).get(k_) for k_ in want_v} }, results {outs_v}", "the quote character must be among the escaped characters and the backend's filter characters must be passed", cv.loc)
     r.floor("C05.R1", 4)
 
 
@@ -287,21 +303,29 @@ def r3_regex(ctx) -> None:
     if n_tr < 3:
         raise AnalysisError(f"only {n_tr} to_regex call sites found in conversion code (3 confirmed)")
     f = prog.func(T + ".SigmaString.to_regex")
-    calls = [c for c in walk_no_nested(f.node) if isinstance(c, ast.Call) and call_name(c) == "self.convert"]
-    if not calls:
-        raise AnalysisError(f"{f.qual}: convert call not found")
-    kws = {k.arg: k.value for k in calls[0].keywords}
+    # to_regex interpreted (sa.tabulate, Proxy) with a recording convert(): what the regex rendering asks convert() for
+    from ..tabulate import Proxy as _Pz, call_method as _cmz, Raised as _Rz
+    cv_params = [p_ for p_ in prog.func(T + ".SigmaString.convert").params() if p_ != "self"]
+    asked_z: list = []
+    def rec_convert(*a_, **k_):
+        d_ = dict(zip(cv_params, a_))
+        d_.update(k_)
+        asked_z.append(d_)
+        return "CONVERTED"
+    to_regex_params = [p_ for p_ in f.params() if p_ != "self"]
     try:
-        ae = kws["add_escaped"]
-        try:
-            add = const_eval(prog, f.module, ae.left) if isinstance(ae, ast.BinOp) and isinstance(ae.op, ast.Add) else const_eval(prog, f.module, ae)
-        except ValueError:
-            r.violation("C05.R3", f.qual, f"add_escaped={unparse(ae)}", "the escaped set of the regex rendering must be the constant metacharacter set, optionally extended (+) by the backend's extra characters; a conditional or substituted set leaves metacharacters of a literal unescaped", f.loc)
-            add = None
-        esc = const_eval(prog, f.module, kws["escape_char"])
-        wm, ws = const_eval(prog, f.module, kws["wildcard_multi"]), const_eval(prog, f.module, kws["wildcard_single"])
-    except (KeyError, ValueError) as e:
-        raise AnalysisError(f"{f.qual}: arguments not constant: {e}")
+        for custom in ("", "#~"):
+            _cmz(prog, T + ".SigmaString", "to_regex", _Pz(prog, T + ".SigmaString", {}, {"convert": rec_convert, "s": ["x"]}, interp_kwargs={"max_steps": 3000}), {}, *( [custom] if to_regex_params else []), interp_kwargs={"max_steps": 3000})
+    except _Rz as ex:
+        raise AnalysisError(f"{f.qual}: raises {ex} on a stand-in string")
+    if len(asked_z) != 2:
+        raise AnalysisError(f"{f.qual}: convert() is called {len(asked_z)} times for two renderings")
+    plain_z, custom_z = asked_z
+    add = plain_z.get("add_escaped")
+    esc, wm, ws = plain_z.get("escape_char"), plain_z.get("wildcard_multi"), plain_z.get("wildcard_single")
+    if not isinstance(add, str):
+        r.violation("C05.R3", f.qual, f"add_escaped={add!r}", "the escaped set of the regex rendering must be the constant metacharacter set, optionally extended (+) by the backend's extra characters; a conditional or substituted set leaves metacharacters of a literal unescaped", f.loc)
+        add = None
     covered = set(add) if add is not None else REGEX_META  # the escape character counts only if listed: convert() does not add it (C05.R1)
     miss = REGEX_META - covered
     if add is None:
@@ -314,8 +338,12 @@ def r3_regex(ctx) -> None:
         r.ok("C05.R3", f.qual, "escape '\\\\', '*' → '.*', '?' → '.'", f.loc)
     else:
         r.violation("C05.R3", f.qual, f"escape={esc!r}, multi={wm!r}, single={ws!r}", "wildcards must map to '.*' and '.', escaping with backslash", f.loc)
-    if isinstance(kws["add_escaped"], ast.BinOp) and unparse(kws["add_escaped"].right) == "custom_escaped":
-        r.ok("C05.R3", f.qual, "backend-specific extra characters are added, not substituted", f.loc)
+    if to_regex_params:
+        cadd = custom_z.get("add_escaped")
+        if isinstance(cadd, str) and add is not None and set(cadd) == set(add) | set("#~"):
+            r.ok("C05.R3", f.qual, "backend-specific extra characters are added, not substituted", f.loc)
+        else:
+            r.violation("C05.R3", f.qual, f"add_escaped={cadd!r} with the backend's extra characters '#~'", "the backend's extra characters must be added to the metacharacter set, not replace it", f.loc)
     g = prog.func("sigma.processing.transformations.values.RegexTransformation.apply_string_value")
     # the sibling rendering interpreted (sa.tabulate, Proxy; `re` is the only library) on a stand-in string for each method
     import re as _re0
